@@ -302,7 +302,13 @@ impl<F: Float, L: Label + std::fmt::Debug> TreeNode<F, L> {
                 let score = w * left_score + (1.0 - w) * right_score;
 
                 // Take the midpoint from this value and the next one as split_value
-                split_value = (split_value + sorted_index.sorted_values[i + 1].1) / F::cast(2.0);
+                let next_value = sorted_index.sorted_values[i + 1].1;
+                let midpoint = (split_value + next_value) / F::cast(2.0);
+                // between two adjacent floats the midpoint can round up to the larger one, and
+                // `value <= split` would then send both observations to the left subtree
+                if midpoint < next_value {
+                    split_value = midpoint;
+                }
 
                 // override best indices when score improved
                 best = match best.take() {
